@@ -19,9 +19,12 @@ def Table.others (t : Table) (by_ : List String) : Table := t.filter fun c => !b
 /-- `[self[k][i] for i in y]` -/
 def pick (xs : List Cell) (ids : List Nat) : List Val := ids.map fun i => .cell (xs.getD i .none)
 
-/-- `d.listby(*by)` (lines 904-915).  `by = []` means all columns. -/
-def Table.listby (t : Table) (by_ : List String) : Res VTable :=
+/-- `d.listby(*by)` (lines 904-915).  No argument (`by_ = []`) means all columns; an explicitly
+empty list (`d.listby([])`, `emptyList`) survives `as_tuple` as `()` and gives the one-row table
+whose cells are the whole columns (line 911). -/
+def Table.listby (t : Table) (by_ : List String) (emptyList : Bool := false) : Res VTable :=
   if t.nrows = 0 then .ok t.toV else
+  if by_.isEmpty && emptyList then .ok (t.map fun c => (c.1, [.list (c.2.map .cell)])) else
   let by_ := if by_.isEmpty then t.cols else by_
   do
     let keys ← t.keysOf (by_.map .col)
